@@ -26,7 +26,21 @@ fn lit_card(v: &OV) -> Card {
     }
 }
 
-fn gen_entries(rng: &mut Rng) -> Vec<(OV, OV)> {
+fn gen_entries(rng: &mut Rng, big: bool) -> Vec<(OV, OV)> {
+    if big {
+        // long tables with few distinct values: many ties (stability of the sort, first optimum)
+        let n = *rng.pick(&[24usize, 33, 48, 70]);
+        let distinct = rng.range(2, 6);
+        let mut es: Vec<(OV, OV)> = vec![];
+        while es.len() < n {
+            let k = OV::Int(rng.range(-3, 400));
+            if es.iter().any(|(k2, _)| *k2 == k) {
+                continue;
+            }
+            es.push((k, OV::Int(rng.range(0, distinct))));
+        }
+        return es;
+    }
     let n = *rng.pick(&[0usize, 1, 2, 3, 4, 5, 8, 12]);
     let mut es: Vec<(OV, OV)> = vec![];
     let strings = rng.chance(1, 4);
@@ -146,7 +160,8 @@ impl Engine for StdEngine {
 
     fn gen(&self, rng: &mut Rng, _tier: Tier, idx: usize) -> Vec<String> {
         let fun = FUNS[idx % FUNS.len()];
-        let es = gen_entries(rng);
+        let big = matches!(fun, "sorted" | "sorted_by_key" | "min" | "max" | "min_by_key" | "max_by_key") && rng.chance(1, 3);
+        let es = gen_entries(rng, big);
         let non_table = rng.chance(1, 12);
         let cb = match fun {
             "filter" | "any" => *rng.pick(&[Cb::VLess3, Cb::KEqFirst, Cb::I, Cb::NotV]),
@@ -170,7 +185,7 @@ impl Engine for StdEngine {
         cards.push(Card::set_global_var("out", call));
         cards.push(Card::set_global_var("input", rv("t")));
         let m = Module { submodules: vec![], functions: vec![("main".into(), Function { arguments: vec![], cards })], imports: vec![] };
-        vec![format!("nat call {} fun={fun} cb={} table={} nontable={non_table}", module_tok(&m), cb_name(cb), table_tok(&es))]
+        vec![format!("nat call {} fun={fun} cb={} table={} nontable={non_table} budget=20000", module_tok(&m), cb_name(cb), table_tok(&es))]
     }
 
     fn run_impl(&self, ops: &[String], out: &mut Vec<String>) {
